@@ -119,4 +119,20 @@ CHECKS = {
                   "quick": {"count": 240, "budget": 75, "workers": 8},
                   "thorough": {"count": 100000, "budget": 900, "workers": 16}}],
     },
+    "C11": {
+        "level": "exploration",
+        "rule": ("one evaluation = a twin pair of simulated runs of a generated model: the reference run, and the same plan with 1-4 migrations "
+                 "(before the first step = broadcast; after a plan-chosen ministep; right after an action was applied; at the end of a report "
+                 "step) of a plan-chosen subset of {Schedule, SummaryState, UDQState, Action::State, WellTestState, EclipseState, SummaryConfig, "
+                 "RestartValue}: packed with Serializer<MemPacker>, unpacked into fresh objects, the run continues on the unpacked objects. "
+                 "Checked: consumed == packed bytes, replica == original, equal public-query image of every schedule state, same packed length as "
+                 "the original at the same moment, second generation equal; and every output file, every firing and the final schedule of the "
+                 "migrated run identical to the twin's. distinct = hash of (units, wells, steps, migration points and masks); non-trivial = >= 1 migration"),
+        "assumptions": ["the Schedule is unpacked into the live object (as a checkpoint load does): Schedule::serializeOp re-links internal pointers, a moved/copied Schedule would not",
+                        "EclipseState and SummaryConfig are round-tripped and compared but the run does not continue on their replicas (EclipseIO keeps its own copies; grid and field properties are distributed separately)",
+                        "packed length is compared with the original packed at the same moment: lazily filled caches that are serialised make the length of one object depend on earlier queries"],
+        "bins": [{"name": "c11", "srcs": ["scen/c11_serial.cpp", "scen/srun/model.cpp", "scen/srun/driver.cpp", "scen/srun/schedcmp.cpp", "scen/srun/packing.cpp"],
+                  "quick": {"count": 200, "budget": 75, "workers": 8},
+                  "thorough": {"count": 100000, "budget": 900, "workers": 16}}],
+    },
 }
